@@ -297,7 +297,7 @@ func generate(r *hxlib.Run, emit0 func(hxlib.Case)) {
 	regression(emit)
 	genIterator(r, emit)
 	genBigPurge(r, emit)
-	n := r.Budget(250, 2000)
+	n := r.Budget(250, 3000)
 	for i := 0; i < n; i++ {
 		for _, backend := range []string{"h", "b", "f", "g"} {
 			for _, shadow := range []bool{false, true} {
